@@ -24,6 +24,10 @@ ATOMSETS = [
      ("!=2012-05-05", lambda d: d != datetime.date(2012, 5, 5))],
     [(">2012-06-30", lambda d: d > datetime.date(2012, 6, 30)), ("%m!=8", lambda d: d.month != 8), ("<=2012-12-31", lambda d: d <= datetime.date(2012, 12, 31))],
     [("%m>=3", lambda d: d.month >= 3), ("%d<20", lambda d: d.day < 20), ("==2012-03-15", lambda d: d == datetime.date(2012, 3, 15))],
+    # a date without operator means equality (also under negation)
+    [("2012-03-15", lambda d: d == datetime.date(2012, 3, 15)), ("%Y<2012", lambda d: d.year < 2012), ("2012-05-05", lambda d: d == datetime.date(2012, 5, 5))],
+    # zero-padded numbers are decimal (08, 09 and 032 are not octal)
+    [("%d>=08", lambda d: d.day >= 8), ("%m!=09", lambda d: d.month != 9), ("%j<=032", lambda d: d.timetuple().tm_yday <= 32)],
 ]
 
 
